@@ -113,11 +113,17 @@ func vrtHarness_C05_ageing() {
 	it.expirationTime = it.expirationTime.Add(-e)
 	backend.Store("k", it, cacheExp.Add(-e))
 
+	// the lookup side's lazy setting is independent of the one the entry was stored under:
+	// a dump written by an instance with another lazy_cache_ttl can be loaded (dump_file, /load_dump)
 	lazyOn := lazy > 0
+	if vrtChoice(2) == 1 {
+		lazyOn = !lazyOn
+	}
+	vrtCover("entry stored under lazy caching, looked up with lazy caching off", vrtAnd(lazy > 0, !lazyOn))
 	resp, lazyHit := getRespFromCache("k", backend, lazyOn, expiredMsgTtl)
 	fresh := eSec < life // now < stored + lifetime
 	cacheLife := life
-	if vrtAnd(lazyOn, r.Rcode == dns.RcodeSuccess, len(r.Answer) > 0) {
+	if vrtAnd(lazy > 0, r.Rcode == dns.RcodeSuccess, len(r.Answer) > 0) {
 		cacheLife = uint64(lazy)
 	}
 	// the backend holds the entry up to and including its expiry instant (an entry may be dropped early, never served late)
